@@ -424,11 +424,13 @@ def bpe_train(char_list, vocab_size=10000, min_count=1, max_char_code=0):
     code_list = [pair_to_replace]
     code_lengths[new_code] = pair_length(pair_to_replace, code_lengths, max_char_code)
 
+    merge_pending = True
     while len(tokens) < vocab_size:
         for i, char_array in enumerate(compressed_chars):
             compressed_chars[i], pair_counts = contract_and_count_pairs(
                 char_array, pair_to_replace, pair_counts, new_code
             )
+        merge_pending = False
 
         pair_counts.pop(pair_to_replace)
         new_code += 1
@@ -448,8 +450,15 @@ def bpe_train(char_list, vocab_size=10000, min_count=1, max_char_code=0):
             tokens.append(pair_to_string(pair_to_replace, tokens, max_char_code))
             code_list.append(pair_to_replace)
             code_lengths[new_code] = pair_length(pair_to_replace, code_lengths, max_char_code)
+            merge_pending = True
         else:
             break
+
+    if merge_pending:
+        # The vocabulary budget was reached: the last learned pair has been recorded
+        # but not yet contracted in the training encodings.
+        for i, char_array in enumerate(compressed_chars):
+            compressed_chars[i] = contract_pair(char_array, pair_to_replace, new_code)
 
     return tokens, code_list, compressed_chars, max_char_code
 
